@@ -102,7 +102,7 @@ def plans(draw):
     servers[str(ports[0])]['stall'] = {'conn': draw(st.integers(0, 1)), 'send_index': draw(st.integers(0, 2)),
                                        'cut': draw(st.sampled_from([1, 4, 10, 18])),
                                        'for_ms': draw(st.sampled_from([5, T - 5, T + 10, 2 * T]))}
-  return {
+  ret = {
       'seed': draw(st.integers(0, 2 ** 16)), 'stack': stack, 'iface': 'hello', 'hop': hop,
       'client_id': None, 'balancer': draw(st.sampled_from(['default', 'heap'])), 'pool': pool,
       'timeout_ms': T, 'wait_open': wait_open,
@@ -112,6 +112,13 @@ def plans(draw):
       # the state of a long-lived mux connection: tag counter at a high-water mark, a few low tags recycled
       'tag_state': draw(st.sampled_from([None, None, [254, []], [255, [2]], [4095, []], [65534, []], [65537, [2, 3]], [2 ** 23 + 1, []]])) if stack == 'thriftmux' else None,
   }
+  if hop == 'mixed' and nports == 2 and draw(st.sampled_from([False, True])):
+    # the balancer is open as soon as its first member is; the second member is still connecting (for about T) when
+    # calls are handed to it, so their deadlines pass inside a transport that has not opened yet
+    servers[str(ports[1])]['connect'] = [['accept', draw(around)]]
+    ret['wait_open'] = False
+    ret['balancer'] = 'heap'
+  return ret
 
 
 def strategy(tier):
